@@ -163,29 +163,17 @@ theorem sumItems_eq_zero_of_items_nil (cs : List (Compactor ρ)) (h : ∀ c ∈ 
 
 theorem totalW_append (a b : List (Compactor ρ)) : totalW (a ++ b) = totalW a + totalW b := weightP_append _ a b
 
-theorem merge_SInv {T : Tun} (hT : TunOK T) (F : SecFns ρ) (s o : Sketch ρ) (acc : Acc) (hs : SInv T s) (ho : SInv T o)
-    (r : Sketch ρ × Acc) (hr : s.merge T F o acc = some r) :
-    SInv T r.1 ∧ r.2.throws = acc.throws ∧ entered0 r.1 = entered0 o ++ entered0 s ∧ r.1.hra = s.hra ∧ r.1.k = s.k ∧ s.hra = o.hra := by
-  simp only [Sketch.merge] at hr
-  split at hr
-  · exact absurd hr (by simp)
-  rename_i hhra
-  have hhra' : s.hra = o.hra := by simpa using hhra
-  split at hr
-  · rename_i hn0
-    have : r = (s, acc) := by simpa using hr.symm
-    subst this
-    have : entered0 o = [] := by
-      have := ho.ent; rw [hn0] at this
-      exact List.length_eq_zero_iff.1 this.symm
-    exact ⟨hs, rfl, by simp [this], rfl, rfl, hhra'⟩
-  rename_i hn0
+theorem mergePre_SInv {T : Tun} (hT : TunOK T) (F : SecFns ρ) (s o : Sketch ρ) (hs : SInv T s) (ho : SInv T o)
+    (hhra' : s.hra = o.hra) (hn0 : ¬ o.n = 0) :
+    SInv T (s.mergePre T F o) ∧ entered0 (s.mergePre T F o) = entered0 o ++ entered0 s ∧
+    (s.mergePre T F o).hra = s.hra ∧ (s.mergePre T F o).k = s.k ∧ (s.mergePre T F o).n = s.n + o.n := by
+  simp only [Sketch.mergePre]
   have g := growTo_spec hT F o.compactors.length o.compactors.length s (by omega) hs.cs hs.k2
-  generalize growTo T F o.compactors.length o.compactors.length s = s1 at g hr
+  generalize growTo T F o.compactors.length o.compactors.length s = s1 at g ⊢
   obtain ⟨extra, he1, he2, he3⟩ := g.shape
   have hocs : CsInv T s.hra 0 o.compactors := by rw [hhra']; exact ho.cs
   have ml := mergeLevels_spec hT F 0 s1.compactors o.compactors g.inv hocs g.ge
-  generalize hcs : mergeLevels T F s1.compactors o.compactors = cs at ml hr
+  generalize hcs : mergeLevels T F s1.compactors o.compactors = cs at ml ⊢
   -- the state before the final compress
   have hone : o.compactors ≠ [] := ho.nonnil
   have hs1tw : totalW s1.compactors = s.n := by
@@ -268,16 +256,34 @@ theorem merge_SInv {T : Tun} (hT : TunOK T) (F : SecFns ρ) (s o : Sketch ρ) (a
       have sp := cmerge_spec hT F hinv0.1 hinvo.1
       rw [hcs'] at sp
       rw [sp.cnt p, sp.ent, cntP_append, hs.ex c0 hc0 p, ho.ex o0 ho0 p]; omega
-  have hent2 : entered0 s2 = entered0 o ++ entered0 s := hent
-  change (if s2.numRetained ≥ s2.maxNomSize then some (s2.compress T F acc) else some (s2, acc)) = some r at hr
+  exact ⟨hI2, hent, g.hra, g.k, trivial⟩
+
+theorem merge_SInv {T : Tun} (hT : TunOK T) (F : SecFns ρ) (s o : Sketch ρ) (acc : Acc) (hs : SInv T s) (ho : SInv T o)
+    (r : Sketch ρ × Acc) (hr : s.merge T F o acc = some r) :
+    SInv T r.1 ∧ r.2.throws = acc.throws ∧ entered0 r.1 = entered0 o ++ entered0 s ∧ r.1.hra = s.hra ∧ r.1.k = s.k ∧ s.hra = o.hra := by
+  simp only [Sketch.merge] at hr
   split at hr
-  · have := compress_SInv hT F s2 acc hI2 (by simp [s2]; omega)
+  · exact absurd hr (by simp)
+  rename_i hhra
+  have hhra' : s.hra = o.hra := by simpa using hhra
+  split at hr
+  · rename_i hn0
+    have : r = (s, acc) := by simpa using hr.symm
+    subst this
+    have : entered0 o = [] := by
+      have := ho.ent; rw [hn0] at this
+      exact List.length_eq_zero_iff.1 this.symm
+    exact ⟨hs, rfl, by simp [this], rfl, rfl, hhra'⟩
+  rename_i hn0
+  obtain ⟨hI2, hent2, hh2, hk2, hn2⟩ := mergePre_SInv hT F s o hs ho hhra' hn0
+  split at hr
+  · have := compress_SInv hT F (s.mergePre T F o) acc hI2 (by rw [hn2]; omega)
     obtain ⟨a, b, c', d, e, f, g', i⟩ := this
-    have : r = s2.compress T F acc := by simpa using hr.symm
+    have : r = (s.mergePre T F o).compress T F acc := by simpa using hr.symm
     subst this
-    exact ⟨a, b, by rw [c', hent2], by rw [g']; exact g.hra, by rw [i]; exact g.k, hhra'⟩
-  · have : r = (s2, acc) := by simpa using hr.symm
+    exact ⟨a, b, by rw [c', hent2], by rw [g', hh2], by rw [i, hk2], hhra'⟩
+  · have : r = (s.mergePre T F o, acc) := by simpa using hr.symm
     subst this
-    exact ⟨hI2, rfl, hent2, g.hra, g.k, hhra'⟩
+    exact ⟨hI2, rfl, hent2, hh2, hk2, hhra'⟩
 
 end DS.Req
